@@ -151,7 +151,7 @@ theorem set_refines (h : Header) (id : UInt8) (v : Bytes) (hg : noGhost h = true
   · simp only [hx, if_true, Bool.not_true, Bool.false_eq_true, if_false]
     cases hv : validateExt h.extProfile id v.length with
     | some e => simp [hx, hg]
-    | none => simp [hx, set_map, noGhost]
+    | none => simp [set_map, noGhost]
   · have hx' : h.extension = false := by simpa using hx
     have hn : h.exts = [] := by simpa [noGhost, hx'] using hg
     simp only [hx', Bool.false_eq_true, if_false, Bool.not_false, if_true]
@@ -177,7 +177,7 @@ theorem del_refines (h : Header) (id : UInt8) (hg : noGhost h = true) :
         cases hc : OM.has (h.exts.map toPair) id
         · rw [(erase_none h.exts id).mpr hc] at he; cases he
         · rfl
-      simp [hh, erase_some h.exts es id he, noGhost, hx]
+      simp [hh, erase_some h.exts es id he, noGhost]
   · have hx' : h.extension = false := by simpa using hx
     simp [hx', hg]
 
